@@ -1614,6 +1614,9 @@ def invite_life_traces():
             t.line(1, "JOIN #club")
             t.line(1, "PART #club :once")
         t.line(0, "JOIN #club")
+        for tp in (":)", ":", "a:b", "", "two words", ":-D x", "plain"):
+            t.line(0, "TOPIC #club :" + tp)    # what is relayed to the members re-parses to what was sent and is what TOPIC shows later
+            t.line(0, "TOPIC #club")
         t.line(0, "MODE #club +i")
         t.line(1, "JOIN #club")                # no new invitation: must be refused with 473
         t.line(0, "NAMES #club")
@@ -3102,6 +3105,10 @@ def c06_sweep(res):
             if variant == 3:
                 t.line(0, "NICK victim2")
                 t.line(0, "NICK victim")
+            if variant in (0, 3):
+                # left a configured channel as its last occupant earlier in the session (seeded C06-e: a stale membership entry
+                # that only the teardown trips over)
+                t.line(0, "PART #pre")
             if way == "QUIT":
                 t.line(0, "QUIT :bye")
             elif way == "CLOSE":
